@@ -8,7 +8,11 @@ Record runcase := {
   rc_prog : program;
   rc_vals : list value;          (* answer to the k-th oracle call (last one repeats) *)
   rc_imm : list bool;            (* k-th service start completes immediately *)
-  rc_script : list apicall
+  rc_script : list apicall;
+  rc_react : list (option nat);  (* k-th notification to function 0: the engine completes the j-th
+                                    pending service from inside it (NetModel only) *)
+  rc_mutate : nat;               (* hostile engine mode (NetModel only; RefSem never shares lists) *)
+  rc_test_ids : bool
 }.
 
 Definition orc_of (vals : list value) : oracle :=
@@ -17,7 +21,10 @@ Definition imm_of (l : list bool) : nat -> bool := fun k => nth k l false.
 
 Definition default_fuel : nat := 3000.
 
+(* the reference semantics does not describe completions of other services sent from inside
+   notifications; such cases are outside it *)
 Definition run_ref (c : runcase) : res (list callrec) :=
+  if existsb (fun o => match o with Some _ => true | None => false end) (rc_react c) then Unsupported else
   rbind (unfold_program (p_tasks (rc_prog c)) 200) (fun body =>
   run_script (orc_of (rc_vals c)) (imm_of (rc_imm c)) default_fuel body sched0 (rc_script c)).
 
@@ -68,6 +75,8 @@ Definition entry_eqb (a b : entry) : bool :=
   | EObs o k n i f, EObs o' k' n' i' f' =>
     Nat.eqb o o' && nkind_eqb k k' && Nat.eqb n n' && Nat.eqb i i' && Bool.eqb f f'
   | EQuery v c, EQuery v' c' => Nat.eqb v v' && Nat.eqb c c'
+  | EFireIn i, EFireIn i' => Nat.eqb i i'
+  | EFireOut i r, EFireOut i' r' => Nat.eqb i i' && Bool.eqb r r'
   | _, _ => false
   end.
 
